@@ -155,6 +155,29 @@ def callers_of(P, suffix, crates=LIB):
     return out
 
 
+def closure_local_defs(body):
+    """defs of closures that are bound to a local (`let f = |..| ..;`) - such closures are applied at their call sites by the normaliser"""
+    out = set()
+    for n in walk(body):
+        if n.get("k") == "SLet" and n["pat"].get("k") == "Bind":
+            init = strip(n.get("init", {}))
+            if isinstance(init, dict) and init.get("k") == "Closure":
+                out.add(init.get("def"))
+    return out
+
+
+def in_closure_local(body, node):
+    """is `node` inside a closure that is bound to a local of this function?"""
+    defs = closure_local_defs(body)
+    if not defs:
+        return False
+    from .ir import walk_with_parents
+    for x, parents in walk_with_parents(body):
+        if x is node:
+            return any(p.get("k") == "Closure" and p.get("def") in defs for p in parents)
+    return False
+
+
 def call_terms(ctx, callee_path, crates=LIB, _depth=0):
     """every call of `callee_path`, seen through transparent helpers: [(outer fn body, outer call node, call term)].
     A private non-recursive helper that forwards to the callee is not a caller of its own: its call sites are."""
@@ -175,6 +198,12 @@ def call_terms(ctx, callee_path, crates=LIB, _depth=0):
                         found += 1
             if found:
                 continue      # otherwise (helper not inlined after all / never called) the helper itself is the caller
+        if in_closure_local(b["body"], n):
+            # the call is made by a local closure: its call sites (with the closure applied) are the calls of this function
+            for st in subterms(N.term(b["body"])):
+                if st[0] == "call" and st[1] == name:
+                    out.append((b, n, st))
+            continue
         out.append((b, n, N.term(n)))
     # one entry per (outer fn, rendered call): a let-bound helper result substituted at several uses is one call
     uniq, seen = [], set()
